@@ -91,9 +91,11 @@ def oracle_fn(t):
     return f'pub fn oracle_pcmp(a: &Ty, b: &Ty) -> Option<Ordering> {{\n    match (a, b) {{\n{arms}    }}\n}}\n'
 
 
-def emit(modname, cfgid, shape, ranks, mode, sp=None, laws=False, pre='', t_override=None):
+def emit(modname, cfgid, shape, ranks, mode, sp=None, laws=False, pre='', t_override=None, xf=None):
     from .model import variant_index_fn
     t = t_override or build(shape, ranks, mode)
+    if xf:
+        xf(t)
     for v in t.variants:
         if visit_order(v) is None:
             return None
@@ -123,6 +125,8 @@ def emit(modname, cfgid, shape, ranks, mode, sp=None, laws=False, pre='', t_over
     hs = [h]
     if laws and live:
         lt = build(shape, ranks, mode, lawful=True)
+        if xf:
+            xf(lt)
         for v in lt.variants:
             for f in v.fields:
                 if f.code == 'n':
